@@ -191,6 +191,58 @@ def unique_decomposition(lits, multi, timeout_ms):
     return cvc5_unsat(s, timeout_ms)
 
 
+def visible_types(run: Run):
+    """`every resource pattern visible to a service`: the resources of a message are collected from MessageType.recursive_field_types (through
+    recursive_resource_fields), a worklist over field iterators.  Under contract, on the real code: Field.type (message wrapper iff the descriptor
+    names a type that resolved to a message; enum likewise; a PrimitiveType otherwise), Field.is_primitive, and the worklist itself - the result
+    holds the type of every non-primitive field of the message and is closed under "fields of a message type in the result".  The invariants
+    speak about the pending set: a field list is either fully recorded or still on the stack (or the one being iterated)."""
+    from vf.schema import SchemaModel
+    from vf.pyvc import Contract
+    W = "gapic/schema/wrappers.py"
+    m = SchemaModel()
+    m.classes["FieldPb"]["type_name"] = "Str"
+    not_typed = "not (self.type_name != '' and (self.message is not None or self.enum is not None))"
+    m.add_spec("one_kind", ["f"], "f.message is None or f.enum is None")
+    ct = Contract("Field.type", source=(W, "Field.type"), params={"self": "Field"}, result="AnyType",
+                  # (a type name resolves to a message or to an enum, never both: clauses that tell the two apart are stated for such fields only,
+                  # so that the order of the two tests in the code is not pinned down)
+                  ensures=["implies(one_kind(self) and self.type_name != '' and self.message is not None, result is self.message)",
+                           "implies(one_kind(self) and self.type_name != '' and self.enum is not None, result is self.enum)",
+                           f"implies({not_typed}, isinstance(result, PrimitiveType))",
+                           "implies(one_kind(self), isinstance(result, MessageType) == (self.type_name != '' and self.message is not None))"],
+                  raises={"TypeError": f"{not_typed} and self.field_pb.type not in (1, 2, 3, 4, 5, 6, 7, 13, 15, 16, 17, 18, 8, 9, 12)"})
+    cp = Contract("Field.is_primitive", source=(W, "Field.is_primitive"), params={"self": "Field"}, result="Bool",
+                  ensures=["result == isinstance(self.type, PrimitiveType)"])
+    m.add_spec("closedF", ["F", "types"], "forall(lambda f: implies(not f.is_primitive, f.type in types), F)")
+    m.add_spec("onstack", ["F", "stack"], "exists(lambda j: stack[j] is F, 0, len(stack))")
+    m.add_spec("wfm", ["g"], "g.type_name != '' and g.message is not None")
+    W1 = "closedF(self.fields.values(), types) or onstack(self.fields.values(), stack)"
+    W2 = "forall(lambda g: implies(wfm(g) and g.type in types, closedF(g.message.fields.values(), types) or onstack(g.message.fields.values(), stack)), Field)"
+    W3 = "forall(lambda t: implies(t in types, not isinstance(t, PrimitiveType)), AnyType)"
+    F0 = "forall(lambda i: implies(not fields_iter[i].is_primitive, fields_iter[i].type in types), 0, _k)"
+    F1 = "closedF(self.fields.values(), types) or onstack(self.fields.values(), stack) or self.fields.values() is fields_iter"
+    F2 = ("forall(lambda g: implies(wfm(g) and g.type in types, closedF(g.message.fields.values(), types) or onstack(g.message.fields.values(), stack) "
+          "or g.message.fields.values() is fields_iter), Field)")
+    cr = Contract("MessageType.recursive_field_types", source=(W, "MessageType.recursive_field_types"), params={"self": "MessageType"}, result="Seq[AnyType]",
+                  locals={"types": "Set[AnyType]", "stack": "Seq[Seq[Field]]", "fields_iter": "Seq[Field]"},
+                  requires=["forall(lambda f: one_kind(f), Field)"],          # validity of the input schema (protoc: one name, one kind of type)
+                  ensures=["forall(lambda f: implies(not f.is_primitive, f.type in result), self.fields.values())",
+                           "forall(lambda g: implies(wfm(g) and g.type in result, forall(lambda f: implies(not f.is_primitive, f.type in result), g.message.fields.values())), Field)",
+                           "forall(lambda t: not isinstance(t, PrimitiveType), result)"],
+                  invariants={"while#1": [W1, W2, W3], "for#2": [F0, F1, F2, W3]})
+    for c in (ct, cp, cr):
+        m.add_contract(c)
+    for c in (ct, cp, cr):
+        run.verify(m, c)
+    run.assume(*m.assumptions)
+    run.assume("input validity: no Field has both `message` and `enum` set (a type name denotes one kind of type), and a Field whose `message` is set has a "
+               "non-empty type_name (what the loader builds; the closure clause is stated for such fields); "
+               "termination of the worklist is not proved (each message type is pushed at most once: the push is guarded by `not in types`)")
+    run.not_decided.append("minimality of recursive_field_types (every member is reachable from the message) and the resource collection built on it "
+                           "(recursive_resource_fields, Service.resource_messages) are exercised by the native stand-in only")
+
+
 def per_pattern(run: Run):
     from vf import regex2z3 as R
     pats = grammar(run.tier)
@@ -271,6 +323,7 @@ def run(run: Run):
     env = J.make_env()
     emission(run, env)
     per_pattern(run)
+    visible_types(run)
     run.assume("stdlib re.match returns a match iff one exists, and its groups are a valid decomposition of the string along the regex; "
                "with lazy groups (.+?) it is the decomposition with the shortest components from left to right (used only for patterns with a trailing `**`)",
                "str.format substitutes each {name} by the keyword argument",
